@@ -2,7 +2,7 @@
    the packet level.  No proofs here. *)
 From Coq Require Import ZArith List Bool.
 Import ListNotations.
-From V Require Import Base.Tree Base.Bytes Base.Parser Pkg.GenTypes Gen.GenPkg Pkg.Iface Pkg.Eed Pkg.All Rx.Model Rx.Consumer.
+From V Require Import Base.Tree Base.Bytes Base.Parser Pkg.GenTypes Gen.GenPkg Pkg.Iface Pkg.Eed Pkg.All Rx.Model Rx.Consumer Rx.Transport.
 Open Scope Z_scope.
 
 Definition packet_of_tree (t : tree) : packet_in :=
@@ -129,6 +129,37 @@ Definition round_drained_ok (rd_in rd_out : tree) : bool :=
   | _, _ => true
   end.
 
+(* ---- transport level (fn 11) *)
+Fixpoint split_segs (lens : list Z) (bs : bytes) : list bytes :=
+  match lens with
+  | [] => []
+  | n :: r => ztake n bs :: split_segs r (zdrop n bs)
+  end.
+
+(* feed the packets the reader obtained to channel 0 (packets for an unknown channel are reported and ignored) *)
+Fixpoint route_items (st : rxs) (its : list item) : list ev * Z :=          (* events of channel 0, connection errors *)
+  match its with
+  | [] => ([], 0)
+  | IPacket p :: r =>
+      if t_int (t_nth 3 (p_hdr p)) =? 0
+      then let '(es, st1) := rx_packet 0 0 st p in
+           let '(es2, ce) := route_items st1 r in (es ++ es2, ce)
+      else let '(es2, ce) := route_items st r in (es2, ce + 1)
+  | _ :: r => let '(es2, ce) := route_items st r in (es2, ce + 1)
+  end.
+
+Definition is_queued (e : ev) : bool := match e with EvDeliver _ _ | EvSynthDone | EvHeaderOnly _ => true | _ => false end.
+Definition transport_out (its : list item) : tree :=
+  let '(es, ce) := route_items rx_init its in
+  TL [TL (map ev_tree (filter is_queued es)); TI (zlen (filter is_err es)); TI (if 0 <? ce then 1 else 0)].
+
+Fixpoint is_prefix_tree (a b : list tree) : bool :=
+  match a, b with
+  | [], _ => true
+  | x :: a', y :: b' => tree_eqb x y && is_prefix_tree a' b'
+  | _ :: _, [] => false
+  end.
+
 (* fn 10: input (need nenv ps0 (packet ...)) *)
 Definition rx_fn_run (fn : Z) (i : tree) : tree :=
   match fn with
@@ -136,6 +167,10 @@ Definition rx_fn_run (fn : Z) (i : tree) : tree :=
     let need := Z.to_nat (t_int (t_nth 0 i)) in
     let nenv := Z.to_nat (t_int (t_nth 1 i)) in
     out_tree (run_pkts need nenv rx_init (t_int (t_nth 2 i)) (map packet_of_tree (t_list (t_nth 3 i))))
+  | 11 =>
+    let stream := t_bytes (t_nth 0 i) in
+    let k := t_int (t_nth 2 i) in
+    transport_out (read_script (split_segs (map t_int (t_list (t_nth 1 i))) (ztake k stream)))
   | 12 =>
     TL (run_rounds (Z.to_nat (t_int (t_nth 0 i))) (Z.to_nat (t_int (t_nth 1 i))) rx_init [] O (t_list (t_nth 2 i)))
   | _ => pkg_run fn i
@@ -146,6 +181,16 @@ Definition rx_fn_spec (fn : Z) (i o : tree) : bool :=
   | 10 =>
     spec_fragmentation (Z.to_nat (t_int (t_nth 0 i))) (Z.to_nat (t_int (t_nth 1 i))) (t_int (t_nth 2 i))
                        (map packet_of_tree (t_list (t_nth 3 i))) o
+  | 11 =>
+    (* C14: what the consumer got is a prefix of what the complete response delivers, and an error follows;
+       C02: a complete stream delivers everything whatever the partition into reads *)
+    let stream := t_bytes (t_nth 0 i) in
+    let full := parse_stream (S (length stream)) stream in
+    let '(es, _) := route_items rx_init full in
+    let want := map ev_tree (filter is_queued es) in
+    let got := t_list (t_nth 0 o) in
+    is_prefix_tree got want && (t_int (t_nth 2 o) =? 1) &&
+    (if t_int (t_nth 2 i) =? zlen stream then (length got =? length want)%nat else true)
   | 12 => forallb (fun io => round_drained_ok (fst io) (snd io)) (combine (t_list (t_nth 2 i)) (t_list o))
   | _ => pkg_spec fn i o
   end.
